@@ -364,6 +364,54 @@ void sexp_conservative_mark (sexp ctx) {
 #endif
 
 #if SEXP_USE_WEAK_REFERENCES
+/* The extra slots of a weak object (the value of an ephemeron) are not */
+/* traced by sexp_mark, but must be kept as long as all of the weak     */
+/* slots (the key) are alive.  Marks the extra slots of every such      */
+/* object and returns the number of newly marked slots, so the caller   */
+/* can iterate to a fixed point (a value may keep another key alive).   */
+static int sexp_mark_weak_extras(sexp ctx) {
+  int i, len, extra, alive_p, marked;
+  sexp_heap h;
+  sexp p, t, end, *v;
+  sexp_free_list q, r;
+  if (sexp_not(sexp_global(ctx, SEXP_G_WEAK_OBJECTS_PRESENT)))
+    return 0;
+  marked = 0;
+  for (h = sexp_context_heap(ctx) ; h; h=h->next) {
+    p = sexp_heap_first_block(h);
+    q = h->free_list;
+    end = sexp_heap_end(h);
+    while (p < end) {
+      for (r=q->next; r && ((char*)r<(char*)p); q=r, r=r->next)
+        ;
+      if ((char*)r == (char*)p) { /* this is a free block, skip it */
+        p = (sexp) (((char*)p) + r->size);
+        continue;
+      }
+      if (sexp_valid_object_p(ctx, p) && sexp_markedp(p)) {
+        t = sexp_object_type(ctx, p);
+        extra = sexp_type_weak_len_extra(t);
+        if (sexp_type_weak_base(t) > 0 && extra > 0) {
+          alive_p = 1;
+          v = (sexp*) ((char*)p + sexp_type_weak_base(t));
+          len = sexp_type_num_weak_slots_of_object(t, p);
+          for (i=0; i<len; i++)
+            if (v[i] && sexp_pointerp(v[i]) && ! sexp_markedp(v[i]))
+              alive_p = 0;
+          if (alive_p)
+            for ( ; i<len+extra; i++)
+              if (v[i] && sexp_pointerp(v[i]) && ! sexp_markedp(v[i])) {
+                sexp_mark(ctx, v[i]);
+                marked++;
+              }
+        }
+      }
+      p = (sexp) (((char*)p)+sexp_heap_align(sexp_allocated_bytes(ctx, p)));
+    }
+  }
+  return marked;
+}
+
 int sexp_reset_weak_references(sexp ctx) {
   int i, len, broke, all_reset_p;
   sexp_heap h;
@@ -562,6 +610,10 @@ sexp sexp_gc (sexp ctx, size_t *sum_freed) {
   sexp_mark_global_symbols(ctx);
   sexp_mark(ctx, ctx);
   sexp_conservative_mark(ctx);
+#if SEXP_USE_WEAK_REFERENCES
+  while (sexp_mark_weak_extras(ctx) > 0)
+    ;
+#endif
   sexp_reset_weak_references(ctx);
   finalized = sexp_finalize(ctx);
   res = sexp_sweep(ctx, sum_freed);
